@@ -193,7 +193,10 @@ fn one_run(seed: u64, run: u64, exhaustive_budgets: bool) -> RunResult {
     let mut case = Case::new(forms);
     case.knobs = knobs;
     case.sched_seed = rng.next_u64();
-    let is_composed = rng.chance(1, 3);
+    // programs about heap objects (pool operations, allocation templates) always run with the
+    // production collector under slices; the others in a third of the runs
+    let heap_program = run % 8 == 5 || run % 8 == 6;
+    let is_composed = rng.chance(1, 3) || heap_program;
     case.extra = if is_composed {
         // ballast: every slice end then really collects
         json!({"mode": "composed", "dump_is_last": true, "ballast": 0.745})
